@@ -16,6 +16,8 @@
 #include "bitserializer/types/std/vector.h"
 #include "bitserializer/types/std/map.h"
 #include "bitserializer/types/std/optional.h"
+#include "bitserializer/types/std/chrono.h"
+#include <chrono>
 
 using namespace vh;
 using namespace BitSerializer;
@@ -42,7 +44,24 @@ struct RowL {
 	bool operator==(const RowL& o) const { return x == o.x && y == o.y && z == o.z && b == o.b; }
 };
 
+// chrono fields: MsgPack carries them as the Timestamp extension (32/64/96-bit layouts), the text archives as ISO-8601
+struct ChronoL {
+	std::chrono::time_point<std::chrono::system_clock, std::chrono::seconds> tps;
+	std::chrono::time_point<std::chrono::system_clock, std::chrono::milliseconds> tpms;
+	std::chrono::seconds ds{};
+	std::chrono::nanoseconds dns{};
+	int tail = 0;
+	template <class TArchive> void Serialize(TArchive& archive) {
+		archive << KeyValue("tps", tps) << KeyValue("tpms", tpms) << KeyValue("ds", ds) << KeyValue("dns", dns) << KeyValue("tail", tail);
+	}
+	bool operator==(const ChronoL& o) const { return tps == o.tps && tpms == o.tpms && ds == o.ds && dns == o.dns && tail == o.tail; }
+};
+
 std::string hexs(const std::string& s) { return hexBytes(s); }
+std::string show(const ChronoL& v) {
+	return "(" + std::to_string(v.tps.time_since_epoch().count()) + "," + std::to_string(v.tpms.time_since_epoch().count()) + "," +
+		std::to_string(v.ds.count()) + "," + std::to_string(v.dns.count()) + "," + std::to_string(v.tail) + ")";
+}
 std::string show(int v) { return "i" + std::to_string(v); }
 std::string show(const std::string& v) { return "s" + hexs(v); }
 std::string show(double v) { uint64_t b; std::memcpy(&b, &v, 8); char buf[24]; std::snprintf(buf, sizeof buf, "d%016llx", static_cast<unsigned long long>(b)); return buf; }
@@ -134,6 +153,24 @@ template <class T> void fill(std::mt19937& g, std::map<std::string, T>& v) {
 	v.clear();
 	for (unsigned i = 0, n = g() % 4; i < n; ++i) { T e{}; fill(g, e); v["k" + std::to_string(g() % 9) + (g_xmlDomain ? std::string(g() % 3, 'n') : randText(g))] = e; }
 }
+long long randSeconds(std::mt19937& g) {
+	// every layout threshold of the MsgPack Timestamp extension and some calendar dates; all printable as ISO-8601
+	static const long long vals[] = { 0, 1, -1, 59, 86399, 86400, 2147483647LL, 2147483648LL, 4294967295LL, 4294967296LL, 4294967297LL,
+		7258118400LL /* 2200-01-01 */, 8589934592LL, 17179869183LL, 17179869184LL, 17179869185LL, 34359738368LL, 253402300799LL /* 9999-12-31 */,
+		-2147483648LL, -2147483649LL, -62135596800LL /* 0001-01-01 */, 1700000000LL, 951782400LL /* 2000-02-29 */ };
+	if (g() % 4) return vals[g() % (sizeof vals / sizeof *vals)];
+	return static_cast<long long>(g() % 40000000000ULL) - 10000000000LL;
+}
+void fill(std::mt19937& g, ChronoL& v) {
+	using namespace std::chrono;
+	v.tps = time_point<system_clock, seconds>(seconds(randSeconds(g)));
+	static const int fr[] = { 0, 0, 1, 500, 999 };
+	v.tpms = time_point<system_clock, milliseconds>(milliseconds(randSeconds(g) * 1000 + fr[g() % 5]));
+	v.ds = seconds(randSeconds(g));
+	static const long long ns[] = { 0, 1, 999999999LL, 1000000000LL, 1500000000LL, -1, -999999999LL, -1000000001LL, 4294967296000000000LL, 4294967295000000000LL };
+	v.dns = nanoseconds(g() % 3 ? ns[g() % (sizeof ns / sizeof *ns)] : static_cast<long long>(g()) * 1000003LL);
+	v.tail = randInt(g);
+}
 void fill(std::mt19937& g, InnerL& v) { fill(g, v.a); fill(g, v.s); }
 void fill(std::mt19937& g, OuterL& v) { fill(g, v.id); fill(g, v.name); fill(g, v.nums); fill(g, v.inner); fill(g, v.m); fill(g, v.opt); fill(g, v.flag); fill(g, v.d); }
 void fill(std::mt19937& g, RowL& v) { fill(g, v.x); fill(g, v.y); fill(g, v.z); fill(g, v.b); }
@@ -158,10 +195,36 @@ std::string roundTrip(bool stream, unsigned seed) {
 	return "differ " + hexs(saved) + " " + show(value) + " " + show(loaded);
 }
 
+// rows whose saved document is padded to an exact multiple of 256 bytes (the stream readers' chunk size), +0/+1/-1
+template <class TArchive>
+std::string roundTripAligned(bool stream, unsigned seed) {
+	std::mt19937 g(seed);
+	std::vector<RowL> value(1 + g() % 12); for (auto& e : value) fill(g, e);
+	const int delta = static_cast<int>(g() % 3) - 1;
+	std::string saved;
+	try {
+		SaveObject<TArchive>(value, saved);
+		const size_t want = (saved.size() / 256 + 1 + g() % 2) * 256 + delta;
+		value.back().y += std::string(want - saved.size(), 'p');
+		saved.clear();
+		if (stream) { std::ostringstream os; SaveObject<TArchive>(value, os); saved = os.str(); } else SaveObject<TArchive>(value, saved);
+	}
+	catch (const std::exception& e) { return "exc-save:" + describeException(e); }
+	std::vector<RowL> loaded;
+	try {
+		if (stream) { std::istringstream is(saved); LoadObject<TArchive>(loaded, is); } else LoadObject<TArchive>(loaded, saved);
+	}
+	catch (const std::exception& e) { return "exc-load:" + describeException(e) + " " + hexs(saved) + " " + show(value); }
+	if (loaded == value) return "same";
+	return "differ " + hexs(saved) + " " + show(value) + " " + show(loaded);
+}
+
 template <class TArchive>
 std::string rtTarget(const std::string& target, bool stream, unsigned seed) {
 	constexpr bool isCsv = std::is_same_v<TArchive, Csv::CsvArchive>;
 	if (target == "rows") return roundTrip<TArchive, std::vector<RowL>>(stream, seed);
+	if (target == "rows256") return roundTripAligned<TArchive>(stream, seed);
+	if (target == "vchrono") return roundTrip<TArchive, std::vector<ChronoL>>(stream, seed);
 	constexpr bool isXml = std::is_same_v<TArchive, Xml::PugiXml::XmlArchive>;
 	if constexpr (!isCsv && !isXml) {
 		if (target == "i32") return roundTrip<TArchive, int>(stream, seed);
@@ -173,6 +236,7 @@ std::string rtTarget(const std::string& target, bool stream, unsigned seed) {
 		if (target == "vvi") return roundTrip<TArchive, std::vector<std::vector<int>>>(stream, seed);
 		if (target == "msi") return roundTrip<TArchive, std::map<std::string, int>>(stream, seed);
 		if (target == "outer") return roundTrip<TArchive, OuterL>(stream, seed);
+		if (target == "chrono") return roundTrip<TArchive, ChronoL>(stream, seed);
 		if (target == "vouter") return roundTrip<TArchive, std::vector<OuterL>>(stream, seed);
 	}
 	throw BadOp("target");
